@@ -75,6 +75,13 @@ def apply_faults(tokens, faults):
             toks[i] = vocab[f[2] % len(vocab)]
         elif kind == "truncate":
             toks = toks[:i]
+        elif kind == "badchar":
+            # a character outside every strict dialect's character set (or, for
+            # f[2] odd, a control character) as a token of its own
+            ch = "\u03b1" if f[2] % 2 == 0 else "\x01"
+            toks.insert(i, (ch, "badchar", None))
+        elif kind == "badunits":
+            toks.insert(i, ("<m<s>", "badunits", None))
         elif kind == "cut":
             # truncate inside the first quoted/units token at or after i
             for j in list(range(i, len(toks))) + list(range(0, i)):
@@ -104,6 +111,8 @@ def fault_strategy():
         st.tuples(st.just("replace"), idx, st.integers(0, 6)),
         st.tuples(st.just("truncate"), idx),
         st.tuples(st.just("cut"), idx, idx),
+        st.tuples(st.just("badchar"), idx, idx),
+        st.tuples(st.just("badunits"), idx),
     )
     return st.lists(one, min_size=1, max_size=3)
 
